@@ -27,6 +27,9 @@ pub enum SrcKind {
     SerialText,
     /// a real file, index_chroms and the per-chromosome parallel source
     ParallelFile,
+    /// a source of the harness (the merge tool's shape) that starts every chromosome of the case,
+    /// also those without a single value, and feeds the values with their look-ahead
+    Started,
 }
 
 #[derive(Clone, Debug, Serialize, Deserialize, PartialEq, Eq, Hash)]
